@@ -95,6 +95,7 @@ let run_x (sg : bool) (init0 : string) (changes : change list) (evs : string lis
                                                   (if init0 = "-" then [] else String.split_on_char ',' init0)) in
   let st = ref (init r0 []) in
   let rejected = ref (-1) in
+  let puts = ref [] in
   let do_step i e =
     if !rejected < 0 then
       match step sg !st e with Some s -> st := s | None -> rejected := i in
@@ -124,7 +125,12 @@ let run_x (sg : bool) (init0 : string) (changes : change list) (evs : string lis
        let tn = nat_of_int t in
        (match kind with
         | 'P' -> do_step i (ERecvMain tn); do_step i (EPrepare (tn, f)); do_step i (ECommit tn)
-        | 'U' -> do_step i (EPut (tn, f))
+        | 'U' ->
+          (match (!st).pcs tn with
+           | NeedPut (nw, _) when !rejected < 0 ->
+             puts := (if nw = [] then "-" else String.concat "," (List.map (fun d -> string_of_int (int_of_n d.dkey)) nw)) :: !puts
+           | _ -> ());
+          do_step i (EPut (tn, f))
         | 'D' -> do_step i (EDel (tn, f))
         | _ -> failwith "ev"));
     closure i) evs;
@@ -138,7 +144,7 @@ let run_x (sg : bool) (init0 : string) (changes : change list) (evs : string lis
       | None -> "none"
       | Some [] -> "-"
       | Some l -> String.concat "," (List.map (fun d -> string_of_int (int_of_n d.dkey)) l) in
-    Printf.sprintf "ACC R %s I %s" (String.concat "," res) idx
+    Printf.sprintf "ACC R %s I %s U %s" (String.concat "," res) idx (dash (String.concat ";" (List.rev !puts)))
   end
 
 let cap_num = function CapUnknown -> 0 | CapSupported -> 1 | CapUnsupported -> 2
